@@ -16,6 +16,7 @@ CLAIMS = {
  'C07': ('one repacketizer cat from any valid state (inductive invariant), out_range from any constructed state re-parsed by the real parser and compared byte for byte, pad/unpad exactness, canonicity and idempotence, all over small frame counts and payloads with every length/range/maxlen symbolic', '2/C07'),
  'C11': ('ctl lattice: per request, any int32 value on any (havocked) encoder/decoder state: accepted iff legal, stored and read back, rejection with the documented error leaves every byte unchanged, unknown requests unimplemented, null getters rejected; honouring in the bitstream is not claimed here', '2/C11'),
  'C02': ('symbol-layer lock-step: real SILK index encoder vs real decoder over a tape coder for every legal index value (per fs/sub-frame/conditional-coding case), and TOC synthesis read back by the inspection helpers; the frame coders and the encode glue are not claimed', '2/C02'),
+ 'C10': ('layout validation and channel lookup vs a direct specification, ambisonics channel-count rule, demixing x mixing == gain-scaled identity for the built-in orders (exact integer arithmetic, symbolic cell), saturating 16-bit projection accumulation, and decoder channel routing with stubbed stream decoders; encoder-side layouts/concatenation not claimed', '2/C10'),
  'C08': ('range coder round trips, accounting invariant (inductive) and termination lemma decided over all parameters within small buffer/sequence bounds', '2/C08'),
 }
 NA = {
